@@ -4,8 +4,9 @@ set -e
 cd "$(dirname "$0")"
 export CARGO_NET_OFFLINE=true
 python3 tools/extract.py
+python3 tools/rs2lean.py || true
 ( cd lean && lake build Midi driver )
-( cd lean && for m in Midi/Props/C*.lean; do n=$(basename "$m" .lean); lake build "Midi.Props.$n" || true; done; lake env lean --version > /dev/null )
+( cd lean && for m in Midi/Props/C*.lean Midi/Props/T*.lean; do n=$(basename "$m" .lean); lake build "Midi.Props.$n" || true; done; lake env lean --version > /dev/null )
 ( cd harness && cargo build --offline --no-default-features --features std --target-dir target/std )
 ( cd harness && cargo build --offline --no-default-features --features "" --target-dir target/nostd )
 ( cd harness && cargo build --offline --no-default-features --features with_serde --target-dir target/with_serde )
